@@ -50,6 +50,22 @@ add(
 )
 
 add(
+    "C09",
+    "exploration",
+    "Generated surrogate models (kernels, means, Box-Cox / identity target transform, both parameter encodings, parameter vectors anywhere "
+    "in the box incl. corners and lambda in {0, +-1e-7}) and data sets: (value, gradient) of the scipy objective from "
+    "create_lbfgs_arguments against multi-scale Ridders-extrapolated central differences; EI / LCB / EIpu / CEI on GP predictors built by the "
+    "library's estimator (pending evaluations with 1-5 fantasies, normalisation on/off) and on a harness-side predictor with prescribed "
+    "moments (|u| up to 40, tiny std, infeasible incumbents, non-positive cost): value == value-with-gradient, gradient vs numerical "
+    "derivative, EI == closed form and EI >= 0. 2.2e4 cases quick, 5.6e5 thorough.",
+    "A numerical derivative decides only where it is trustworthy: a mismatch needs two conclusive extrapolations (error estimate and "
+    "conditioning-scaled round-off bound below 1e-4 of the derivative) that agree with each other, disagree with the analytic value, and "
+    "are not contradicted by a finer-step run; everything else is counted as inconclusive. MCMC predictors not generated.",
+    "property-based testing (Hypothesis choice tape): analytic gradients vs multi-scale Ridders numerical differentiation; closed-form oracle for EI",
+    "DESIGN.md 6/C09",
+)
+
+add(
     "C18",
     "exploration",
     "Generated scripts of Reporter calls, noise and must-be-rejected reports, emitted through the real Reporter, written to a "
